@@ -385,6 +385,50 @@ def _large_chunk(params, lo, hi):
     return r
 
 
+def deep_matrices():
+    """matrices whose only exact cover has far more rows than the interpreter's recursion limit allows frames:
+    (name, matrix, the unique cover as a sorted tuple of row indices)"""
+    out = []
+    n = 1500
+    out.append(("identity1500", [[1 if i == j else 0 for j in range(n)] for i in range(n)], tuple(range(n))))
+    m = 2400  # a 1 x 2400 strip and all 2399 dominoes: the only tiling uses dominoes 0, 2, 4, ...
+    out.append(("strip2400_dominoes", [[1 if j in (i, i + 1) else 0 for j in range(m)] for i in range(m - 1)], tuple(range(0, m - 1, 2))))
+    return out
+
+
+def _deep_chunk(params, lo, hi):
+    import solvor.dlx as dlx
+    from solvor.types import Status
+
+    ms = deep_matrices()
+    r = new_result()
+    for idx in range(lo, hi):
+        name, matrix, want = ms[idx // 2]
+        find_all = idx % 2 == 1
+        wit = {"deep": name, "find_all": find_all}
+        how = f"solve_exact_cover({name}, find_all={find_all})"
+        r["n"] += 1
+        r["nontrivial"] += 1
+        before = [row[:] for row in matrix[:3]]
+        try:
+            res = gcall(lambda: dlx.solve_exact_cover(matrix, find_all=find_all), 60.0, 400_000_000)
+        except Exception as ex:  # noqa: BLE001
+            r["outcomes"]["deep:raised"] += 1
+            r["violations"].append(viol("solve_exact_cover", "raised", wit, f"{how}: {type(ex).__name__}: {str(ex)[:120]}"))
+            continue
+        got = res.solution
+        if find_all:
+            ok = res.status == Status.OPTIMAL and isinstance(got, list) and len(got) == 1 and tuple(sorted(got[0])) == want
+        else:
+            ok = res.status == Status.OPTIMAL and got is not None and tuple(sorted(got)) == want
+        r["outcomes"][f"deep:{'ok' if ok else 'wrong'}"] += 1
+        if not ok:
+            r["violations"].append(viol("solve_exact_cover", "wrong_on_deep_matrix", wit, f"{how}: status {res.status.name}, answer differs from the unique cover of {len(want)} rows"))
+        if matrix[:3] != before:
+            r["violations"].append(viol("solve_exact_cover", "input_modified", wit, f"{how}: the input matrix was modified"))
+    return r
+
+
 def _big_chunk(params, lo, hi):
     rows, cols, off = params
     r = new_result()
@@ -408,6 +452,7 @@ def jobs(tier, seed):
     qn = (1, 2, 3, 4, 5, 6, 7) if tier == "thorough" else (1, 2, 3, 4, 5, 6)
     js.append(Job("n_queens_secondary_diagonals", len(qn) * 16, _queens_chunk, qn, chunk=1, describe=f"n-queens for n in {qn} as exact cover with secondary diagonals, 4 row orders, find_all on/off, max_solutions None/2"))
     js.append(Job("large_structured", len(large_matrices()) * 3, _large_chunk, None, chunk=1, describe="70x70 identity (also reversed with a heavy first row), monomino/domino tilings of a 1x12 strip (233 covers) in three row orders, one with secondary columns; single solution, find_all, max_solutions=5"))
+    js.append(Job("deep_unique_covers", len(deep_matrices()) * 2, _deep_chunk, None, chunk=1, describe="1500x1500 identity and the 2399 dominoes of a 1x2400 strip: the unique cover has 1500 / 1200 rows (search depth beyond the interpreter's recursion limit); single solution and find_all"))
     js.append(Job("limits_4x4_nosec", 2**16 * len(LIMITS), _limits_chunk, (4, 4, False), describe="limit cross on all 4x4 matrices without secondary columns; column naming rotates with the index"))
     if tier == "thorough":
         js.append(Job("big_5x4", 2**20, _big_chunk, (5, 4, 0), describe="all 5x4 matrices, find_all"))
@@ -424,6 +469,10 @@ def jobs(tier, seed):
 
 def replay(v):
     w = v["witness"]
+    if w.get("deep"):
+        i = [m[0] for m in deep_matrices()].index(w["deep"]) * 2 + (1 if w.get("find_all") else 0)
+        r = _deep_chunk(None, i, i + 1)
+        return r["violations"][0] if r["violations"] else None
     errs, _, _, _ = judge(w["matrix"], w["secondary"], w["find_all"], w["max_solutions"], w["max_iter"], w["naming"], tap=True)
     for kind, detail in errs:
         if kind == v["kind"]:
